@@ -263,6 +263,15 @@ def gen_seeded(rng, tier):
         yield Case("cli_seeded", [st, "shuffle", "sites"] + flags((["-r", "--rate"], frac(), 0.8), (["--rogue"], frac(), 0.6), (["--stable-rogues"], None, 0.4),
                                                                   (["--rogue-file"], rng.choice(["none", "stdout", "-"]), 0.3)),
                    n >= 2, "seeded-shuffle-sites")
+        yield Case("cli_seeded", [st, "shuffle", "swap"] + flags((["-r", "--rate"], rng.choice(["0", "0.3", "0.5", "0.6", "0.75", "0.9", "1", "1", "1", "1.5", "-0.5"]), 0.8), (["--pos"], rng.choice(["0", "0.25", "0.5", "0.7", "1", "-1", "2"]), 0.4)),
+                   n >= 2, "seeded-shuffle-swap")
+        yield Case("cli_seeded", [st, "shuffle", "recomb"] + flags((["-n", "--prop-seq"], rng.choice(["0", "0.1", "0.25", "0.3", "0.4", "0.5", "0.5", "0.6", "-0.5"]), 0.7),
+                                                                   (["-l", "--prop-length"], frac(), 0.7), (["--swap"], None, 0.5)),
+                   n >= 2, "seeded-shuffle-recomb")
+        yield Case("cli_seeded", [st, "shuffle", "rogue"] + flags((["-n", "--prop-seq"], frac(), 0.7), (["-l", "--length"], frac(), 0.7),
+                                                                  (["--rogue-file"], rng.choice(["none", "stdout", "-"]), 0.3)),
+                   n >= 2, "seeded-shuffle-rogue")
+        yield Case("cli_seeded", [st, "mutate", "gaps"] + flags((["-r", "--rate"], frac(), 0.7), (["-n", "--prop-seq"], frac(), 0.7)), True, "seeded-mutate-gaps")
 
 
 def gen(rng, tier):
